@@ -138,6 +138,9 @@ def check(tier="quick", seed=0, workers=None, only=None):
     total.merge_from(st)
     total.merge_from(cst)
     total.merge_from(bst)
+    from . import rconc
+    rst, rinfo = rconc.run_for("C16", tier, seed, workers, only)
+    total.merge_from(rst)
     total.samples = st.samples[:3] + cst.samples[:3]
     viols = common.collect(total, ("C16",))
     cov = evidence.stats_coverage(
@@ -145,8 +148,8 @@ def check(tier="quick", seed=0, workers=None, only=None):
         rule=("(a) every connection type x 10 timeout configurations x variant, request with body answered with an interim 1xx + final response, then a second request; "
               "one read cut anywhere (deviation bound 1) so that every read call site issues its own network read; every connect/start_tls/read/write in the ledger judged; "
               "(c) the real SyncBackend / AnyIOBackend / TrioBackend over OS-level fakes: the limit in effect at every OS-level operation (settimeout value / innermost fail_after scope) "
-              "must be the request's connect / read / write value; (b) pool-timeout scenarios on the virtual loop, all orders of deadline vs release; non-trivial = outcome class of an execution with a cut / a timer event"),
-        extra={"sequential_scenarios": len(sp), "pool_timeout": cinfo, "real_backends": binfo})
+              "must be the request's connect / read / write value; (b) pool-timeout scenarios on the virtual loop (and, smaller, in the trio world with the clock advanced to the next trio deadline by the explorer), all orders of deadline vs release; non-trivial = outcome class of an execution with a cut / a timer event"),
+        extra={"sequential_scenarios": len(sp), "pool_timeout": cinfo, "real_backends": binfo, "pool_timeout_trio": rinfo})
     return {"level": "model_checking", "coverage": cov, "violations": viols,
             "assumptions": ["proxy negotiation operations may carry any of the configured connect/read/write values; None is accepted there only when one of the three is absent",
                             "PoolTimeout must be raised at (virtual) enqueue time + T; a re-queued request restarts its clock (the only reading under which the retry loop is judged)"]}
